@@ -4853,6 +4853,7 @@ def translate(repo, overrides):
     L += seq_section(toks)  # third extension: sequences (Vec, iterators, loops, from_fn, library calls as EXTERNs)
     L += sched_section(toks, lambda rel: raw_of[rel])  # [schedule extension] fourth increment: schedule.rs
     L += dated2_section(toks)  # [dated2 extension] fifth increment: the interval consumers of date_filter.rs
+    L += eval_section(toks, lambda rel: raw_of[rel])  # [eval extension] fifth increment: opening_hours.rs
     L.append("end OH.Generated.Arith")
     return "\n".join(L).replace("import OH.Model.RustInt\n", "import OH.Model.RustInt\nimport OH.Model.RustSeq\nimport OH.Model.RustVec\n", 1) + "\n"
 
@@ -7003,6 +7004,7 @@ def sched_section(toks, raw):
         L += g.gen() + [""]
         sigs[(impl_ty, rname)] = dict(has_self=node.has_self, mut_self=node.mut_self, params=[pt for _, pt, _ in node.params], ret=node.ret,
                                       externs=dict(g.externs), fuel=g.fuel)
+    SCHED_EXPORT.update(sigs=sigs, fields=fields)  # [eval extension] hook
     L += ["end Sched", ""]
     return L
 
@@ -7214,6 +7216,803 @@ def dated2_section(toks):
     return L
 
 # ---- end of [dated2 extension] ------------------------------------------------------------------
+
+
+# [eval extension] fifth increment: the evaluator core of opening-hours/src/opening_hours.rs (notes/RS2LEAN5-eval.md).
+# `rule_sequence_schedule_at` and `OpeningHours::schedule_at`: `for x in &vec { .. }` as a structural recursion over the
+# vector (state = the `mut` locals), `let (a, b) = e;`, tuples, `match` on a tuple with `Some(x)` / `None` / binder / `_`
+# patterns (a Lean `match`, first arm first) or with enum constants and or-patterns (an `if` chain of tests in source
+# order whose final `else` is an explicit panic outcome: the theorems prove it unreachable), `Option::filter / map` with
+# closures that CALL things (a closed `match`), `.map(Type::method)`, `Option::or`, `as_ref`, `unwrap_or_else(Schedule::new)`,
+# `Schedule::default()`, ranges of dates and `contains`, `pred_opt` / `succ_opt`, `DATE_START.date()`.  `NaiveDate` is its
+# day number (`Int`, chrono mode); `RuleOperator`, `DaySelector`, `TimeSelector`, `Context<L>` are ABSTRACT (type parameters
+# `Op` with `==`, `DaySel`, `TimeSel`, `Ctx`); the structs `RuleSequence`, `OpeningHoursExpression`, `OpeningHours` are
+# read from their declarations.  The untranslated callees are NAMED, EFFECTFUL function parameters (`ext_day_selector_filter
+# : DaySel → Int → Ctx → R Bool`, ..: a panic inside the callee propagates in Rust's evaluation order), passed BY NAME in
+# the theorems; the translated `Schedule::from_ranges / addition / is_always_closed` are CALLED (linked), their named
+# parameters passed on.  Same rule: anything else is an error naming file:line.
+F_OH = "opening-hours/src/opening_hours.rs"
+F_RULES = "opening-hours-syntax/src/rules/mod.rs"
+EVAL_STRUCTS = [(F_RULES, "RuleSequence"), (F_RULES, "OpeningHoursExpression"), (F_OH, "OpeningHours")]
+# (file, impl header tokens or None for a free function, Rust name) in dependency order
+EVAL_TARGETS = [
+    (F_OH, None, "rule_sequence_schedule_at"),
+    (F_OH, ["impl", "<", "L", ":", "Localize", ">", "OpeningHours", "<", "L", ">"], "schedule_at"),
+]
+EVAL_TPARAMS = "Time Kind Comments Op DaySel TimeSel Ctx"
+EVAL_BINDER = ("{Time Kind Comments Op DaySel TimeSel Ctx : Type} [LT Time] [LE Time] [DecidableLT Time] [DecidableLE Time] [DecidableEq Time] "
+               "[DecidableEq Kind] [DecidableEq Op]")
+E_DATE, E_OP, E_CTX, E_DSEL, E_TSEL = T("adate"), T("aop"), T("actx"), T("adaysel"), T("atimesel")
+EVAL_ABS_LEAN = {"adate": "Int", "aop": "Op", "actx": "Ctx", "adaysel": "DaySel", "atimesel": "TimeSel"}
+EVAL_ABS_SHOW = {"adate": "NaiveDate", "aop": "RuleOperator", "actx": "Context<L>", "adaysel": "DaySelector", "atimesel": "TimeSelector"}
+# abstract enum whose constants are named parameters: Rust name -> (type, file, derives that must be present)
+EVAL_ENUMS = {"RuleOperator": (E_OP, F_RULES, {"PartialEq", "Eq", "Clone", "Copy"}), "RuleKind": (S_KIND, F_RULES, {"PartialEq", "Eq", "Clone", "Copy"})}
+SCHED_CONSTS.update({"RuleOperator::Normal": ("aop", "RuleOperator_Normal"), "RuleOperator::Additional": ("aop", "RuleOperator_Additional"),
+                     "RuleOperator::Fallback": ("aop", "RuleOperator_Fallback")})
+# untranslated free functions of /repo: name -> (module it must be imported from, parameter types, result type)
+EVAL_FN_HOLES = {
+    "time_selector_intervals_at": ("crate::filter::time_filter", [E_CTX, E_TSEL, E_DATE], T("intoiter", T("range", S_TIME))),
+    "time_selector_intervals_at_next_day": ("crate::filter::time_filter", [E_CTX, E_TSEL, E_DATE], T("intoiter", T("range", S_TIME))),
+}
+# untranslated trait methods: (receiver kind, method) -> (parameter name, (module, trait) that must be imported, parameter types, result)
+EVAL_METHOD_HOLES = {
+    ("adaysel", "filter"): ("ext_day_selector_filter", ("crate::filter::date_filter", "DateFilter"), [E_DATE, E_CTX], BOOL),
+}
+EVAL_IMPORTS = {("chrono", "NaiveDate"), ("crate::schedule", "Schedule"), ("crate", "Context"), ("opening_hours_syntax::rules", "RuleSequence"),
+                ("opening_hours_syntax::rules", "RuleKind"), ("opening_hours_syntax::rules", "RuleOperator"), ("opening_hours_syntax::rules", "OpeningHoursExpression"),
+                ("std::sync", "Arc"), ("crate::localization", "Localize")}
+SCHED_EXT_DOC.update({
+    "ext_day_selector_filter": "the untranslated `DaySelector::filter(&self, date, ctx)` (`DateFilter`), an effectful function: its panic propagates",
+    "ext_time_selector_intervals_at": "the untranslated `time_selector_intervals_at(ctx, time_selector, date)`, collected",
+    "ext_time_selector_intervals_at_next_day": "the untranslated `time_selector_intervals_at_next_day(ctx, time_selector, date)`, collected",
+})
+SCHED_EXPORT = {}  # filled by `sched_section`: the signatures / struct fields of the translated functions of schedule.rs
+
+
+def E_ST(name):
+    return T("est", name)
+
+
+_seq_lty_before_eval, _seq_show_before_eval = seq_lty, seq_show
+
+
+def seq_lty(t, top=True):  # noqa: F811  [eval extension]
+    k = t[0]
+    if k in EVAL_ABS_LEAN:
+        return EVAL_ABS_LEAN[k]
+    if k == "est":
+        s = f"{t[1]} {EVAL_TPARAMS}"
+        return s if top else f"({s})"
+    if k == "tuple":
+        s = " × ".join(seq_lty(x, False) for x in t[1:])
+        return s if top else f"({s})"
+    return _seq_lty_before_eval(t, top)
+
+
+def seq_show(t):  # noqa: F811  [eval extension]
+    if t is not None and t[0] in EVAL_ABS_SHOW:
+        return EVAL_ABS_SHOW[t[0]]
+    if t is not None and t[0] == "est":
+        return t[1]
+    if t is not None and t[0] == "tuple":
+        return "(" + ", ".join(seq_show(x) for x in t[1:]) + ")"
+    return _seq_show_before_eval(t)
+
+
+class EvalParser(SchedParser):
+    """`SchedParser` plus: the types of the evaluator (`NaiveDate`, `RuleSequence`, `RuleOperator`, `Context<L>`, `Arc<T>`,
+    `day::DaySelector`, `time::TimeSelector`), `fn f<L: Localize>`, statements `for x in e { .. }` and `let (a, b) = e;`,
+    `match` with tuple / `Some` / `None` / binder / `_` / enum-constant patterns and or-patterns."""
+
+    def type_(self):
+        tk = self.peek()
+        if tk.text in ("day", "time") and self.peek(1).text == "::":
+            want = {"day": "DaySelector", "time": "TimeSelector"}[tk.text]
+            self.i += 2
+            self.eat(want)
+            return E_DSEL if tk.text == "day" else E_TSEL
+        if tk.text == "NaiveDate":
+            self.i += 1
+            return E_DATE
+        if tk.text == "RuleOperator":
+            self.i += 1
+            return E_OP
+        if tk.text == "Context":
+            for x in ("Context", "<", "L"):
+                self.eat(x)
+            self.close_angle()
+            return E_CTX
+        if tk.text == "Arc":
+            self.i += 1
+            self.eat("<")
+            inner = self.type_()
+            self.close_angle()
+            return inner  # a shared pointer to an immutable value is the value
+        if tk.text in [n for _, n in EVAL_STRUCTS]:
+            self.i += 1
+            return E_ST(tk.text)
+        return SchedParser.type_(self)
+
+    def seq_fn(self):
+        # `fn NAME<L: Localize>(..)`: the parameter only occurs in `Context<L>`, which is abstract
+        if self.peek(2).text == "<":
+            got = [self.peek(k).text for k in range(2, 7)]
+            if got != ["<", "L", ":", "Localize", ">"]:
+                fail(self.where(self.peek(2)), "generic parameters other than `<L: Localize>` are outside the translated subset (evaluator functions)")
+            self.t = self.t[: self.i + 2] + self.t[self.i + 7 :]
+        return SchedParser.seq_fn(self)
+
+    def seq_let(self):
+        if self.peek(1).text == "(" and self.peek(2).kind == "id" and self.peek(3).text == "," and self.peek(4).kind == "id" and self.peek(5).text == ")":
+            line = self.eat("let").line
+            a, b = self.peek(1).text, self.peek(3).text
+            self.i += 5
+            self.eat("=")
+            e = self.expr()
+            self.eat(";")
+            return Node("lettuple", line, names=[a, b], e=e)
+        return SchedParser.seq_let(self)
+
+    def block(self):
+        # as `SchedParser.block`, with the statement `for NAME in e { .. }`
+        if not any(self.t[j].text == "for" and self.t[j].kind == "id" for j in range(self.i, matching(self.t, self.i))):
+            return SchedParser.block(self)
+        line = self.eat("{").line
+        stmts, tail = [], None
+        while not self.at("}"):
+            if tail is not None:
+                fail(self.where(), "statement after the tail expression")
+            tk = self.peek()
+            if self.at("for"):
+                self.i += 1
+                name = self.ident()
+                self.eat("in")
+                it = self.expr(nostruct=True)
+                stmts.append(Node("exprstmt", tk.line, e=Node("for", tk.line, name=name, it=it, body=self.block())))
+                continue
+            # one statement, parsed by the inherited grammar on a one-statement block
+            sub = self.one_stmt()
+            stmts += sub.stmts
+            tail = sub.tail
+            if tail is not None and not self.at("}"):
+                if tail.kind not in ("if", "iflet", "matchpat", "matchopt"):
+                    fail(self.where(), "statement after the tail expression")
+                stmts.append(Node("exprstmt", tail.line, e=tail))
+                tail = None
+        self.eat("}")
+        return Node("block", line, stmts=stmts, tail=tail)
+
+    def one_stmt(self):
+        """the next statement (or the tail expression) as a block, by the inherited `block` on a copy of its tokens"""
+        start = self.i
+        depth, j = 0, self.i
+        while True:
+            x = self.t[j]
+            if x.kind == "eof":
+                fail(self.where(), "unterminated block")
+            if x.text in ("{", "(", "[") and x.kind == "op":
+                depth += 1
+            elif x.text in ("}", ")", "]") and x.kind == "op":
+                if depth == 0:
+                    break  # the tail expression
+                depth -= 1
+                if depth == 0 and x.text == "}" and self.t[j + 1].text not in (";", ".", "else", ",", "?") and self.t[start].text in ("if", "while", "match"):
+                    j += 1
+                    break
+            elif x.text == ";" and x.kind == "op" and depth == 0:
+                j += 1
+                break
+            j += 1
+        first = self.t[start]
+        toks = [Tok("op", "{", first.line)] + self.t[start:j] + [Tok("op", "}", self.t[j - 1].line), Tok("eof", "", self.t[j - 1].line)]
+        sub = type(self)(toks, self.f, self.structs, uses=self.uses)
+        sub.self_t, sub.item_t = getattr(self, "self_t", None), getattr(self, "item_t", None)
+        b = sub.block()
+        self.i = j
+        return b
+
+    def pattern(self):
+        alts = [self.pattern1()]
+        while self.at("|"):
+            self.i += 1
+            alts.append(self.pattern1())
+        return alts[0] if len(alts) == 1 else ("or", alts)
+
+    def pattern1(self):
+        tk = self.peek()
+        if self.at("("):
+            self.i += 1
+            items = [self.pattern()]
+            while self.at(","):
+                self.i += 1
+                items.append(self.pattern())
+            self.eat(")")
+            if len(items) < 2:
+                fail(self.where(tk), "a parenthesised pattern is outside the translated subset")
+            return ("tuple", items)
+        if self.at("_"):
+            self.i += 1
+            return ("wild",)
+        if self.at("None"):
+            self.i += 1
+            return ("none",)
+        if self.at("Some"):
+            name, by_ref, _ = self.some_pattern()
+            if by_ref:
+                fail(self.where(tk), "`ref` in a `match` pattern is outside the translated subset")
+            return ("some", name)
+        if tk.kind != "id":
+            fail(self.where(), f"pattern `{tk.text}` is outside the translated subset")
+        path = [self.ident()]
+        while self.at("::"):
+            self.i += 1
+            path.append(self.ident())
+        if self.at("(") or self.at("{") or self.at("@"):
+            fail(self.where(tk), "this pattern is outside the translated subset")
+        if len(path) == 1:
+            if not re.fullmatch(r"[a-z_][a-z0-9_]*", path[0]) or re.fullmatch(r"tmp\d+|ext_\w+|fuel|self|it_rest", path[0]):
+                fail(self.where(tk), f"pattern `{path[0]}` is outside the translated subset")
+            return ("bind", path[0])
+        if len(path) != 2:
+            fail(self.where(tk), f"pattern `{'::'.join(path)}` is outside the translated subset")
+        return ("const", "::".join(path))
+
+    def primary(self, nostruct):
+        tk = self.peek()
+        if tk.kind == "id" and tk.text == "match":
+            self.i += 1
+            scrut = self.expr(nostruct=True)
+            self.eat("{")
+            arms = []
+            while not self.at("}"):
+                pat = self.pattern()
+                if self.at("if"):
+                    fail(self.where(), "match guards are outside the translated subset (evaluator functions)")
+                self.eat("=>")
+                if self.at("{"):
+                    body = self.block()
+                    if self.at(","):
+                        self.i += 1
+                else:
+                    bl = self.peek().line
+                    body = Node("block", bl, stmts=[], tail=self.expr())
+                    if not self.at("}"):
+                        self.eat(",")
+                arms.append((pat, body))
+            self.eat("}")
+            if not arms:
+                fail(self.where(tk), "a `match` without arms")
+            return Node("matchpat", tk.line, scrut=scrut, arms=arms)
+        if tk.kind == "op" and tk.text == "(":
+            # `(e)`, `(a, b)`, `(a, b,)` (a trailing comma is allowed)
+            self.i += 1
+            items = [self.expr()]
+            if not self.at(","):
+                self.eat(")")
+                return Node("paren", tk.line, e=items[0])
+            while self.at(","):
+                self.i += 1
+                if self.at(")"):
+                    break
+                items.append(self.expr())
+            self.eat(")")
+            if len(items) < 2:
+                fail(self.where(tk), "a tuple of one component is outside the translated subset")
+            return Node("tuple", tk.line, items=items)
+        return SchedParser.primary(self, nostruct)
+
+
+def eval_pat_kinds(p, out):
+    out.add(p[0])
+    if p[0] in ("or", "tuple"):
+        for q in p[1]:
+            eval_pat_kinds(q, out)
+    return out
+
+
+class EvalGen(SchedGen):
+    def __init__(self, fname, impl_ty, node, self_t, fields, sigs, uses, consts, esigs, local_consts):
+        SchedGen.__init__(self, fname, impl_ty or "", node, self_t, fields, sigs, uses, consts)
+        self.esigs, self.local_consts = esigs, local_consts
+        if impl_ty is None:
+            self.lean_name = node.name
+
+    def gen(self):
+        lines = SchedGen.gen(self)
+        if self.nloop_for:
+            pass
+        return [x.replace(SCHED_BINDER, EVAL_BINDER).replace("/-- `::", "/-- `") for x in lines]
+
+    nloop_for = 0
+
+    def emit_return(self, frame, term, ty, node):
+        if frame.kind == "closed":
+            fail(self.w(node), "`return` inside a `match` arm / a closure whose value is used is outside the translated subset")
+        return SchedGen.emit_return(self, frame, term, ty, node)
+
+    def write(self, p, new, new_ty, env, frame, k, node):
+        if frame.kind == "closed":
+            fail(self.w(node), "a write inside a `match` arm / a closure whose value is used is outside the translated subset")
+        return SchedGen.write(self, p, new, new_ty, env, frame, k, node)
+
+    def while_(self, s, env, frame, rest):
+        if frame.kind == "closed":
+            fail(self.w(s), "a loop inside a `match` arm / a closure is outside the translated subset")
+        return SchedGen.while_(self, s, env, frame, rest)
+
+    def field_ty(self, ty, name, node):
+        t = seq_unref(ty)
+        if t is not None and t[0] == "est":
+            for fn, ft in self.fields[t[1]]:
+                if fn == name:
+                    return ft
+            fail(self.w(node), f"`{t[1]}` has no field `{name}`")
+        return SchedGen.field_ty(self, ty, name, node)
+
+    def closed(self, lines, k, ty, env):
+        """`lines` compute a value in `R` (a closed sub-computation); bind it and continue"""
+        v = self.fresh()
+        self.effects += 1
+        return ["bnd ("] + ["  " + x for x in lines] + [f"  ) fun {v} =>"] + k(v, ty, env)
+
+    def cg(self, e, env, frame, k):
+        kind, w = e.kind, self.w(e)
+        if kind == "tuple":
+            def got(a, en):
+                if any(ty is None or ty[0] == "unit" for _, ty in a):
+                    fail(w, "a tuple component of unknown type")
+                return k("(" + ", ".join(t for t, _ in a) + ")", T("tuple", *[seq_unref(ty) for _, ty in a]), en)
+            return self.args(e.items, env, frame, got)
+        if kind == "field" and e.name in ("0", "1"):
+            def gt(t, ty, en):
+                ty = seq_unref(ty)
+                if ty is None or ty[0] != "tuple" or len(ty) != 3:
+                    fail(w, f"`.{e.name}` on {seq_show(ty)}")
+                return k(f"{atom(t)}.{int(e.name) + 1}", ty[1 + int(e.name)], en)
+            return self.cg(e.e, env, frame, gt)
+        if kind == "range":
+            def lo(a, ta, en):
+                if seq_unref(ta) != E_DATE:
+                    return SchedGen.cg(self, e, env, frame, k)
+                if e.incl:
+                    fail(w, "`..=` is outside the translated subset (evaluator functions)")
+                return self.cg(e.r, en, frame, lambda b, tb, en2: k(f"Range.mk {atom(a)} {atom(b)}", T("range", E_DATE), en2)
+                               if seq_unref(tb) == E_DATE else fail(w, f"a range of {seq_show(ta)} .. {seq_show(tb)}"))
+            return self.cg(e.l, env, frame, lo)
+        if kind == "ascribe":
+            return self.cg(e.e, env, frame, lambda t, ty, en: k(f"({t} : {seq_lty(seq_unref(e.ty))})", seq_unref(e.ty), en)
+                           if seq_same(ty, e.ty) else fail(w, f"type mismatch: annotation {seq_show(e.ty)}, value {seq_show(ty)}"))
+        if kind == "for":
+            return self.for_(e, env, frame, k)
+        if kind == "matchpat":
+            return self.matchpat(e, env, frame, k)
+        return SchedGen.cg(self, e, env, frame, k)
+
+    def block(self, b, env, frame, k, bind=None):
+        # `let (a, b) = e;` is `let pair = e; let a = pair.0; let b = pair.1;`
+        if any(s.kind == "lettuple" for s in b.stmts):
+            stmts = []
+            for s in b.stmts:
+                if s.kind != "lettuple":
+                    stmts.append(s)
+                    continue
+                pn = f"pair_{s.names[0]}_{s.names[1]}"
+                stmts.append(Node("let", s.line, name=pn, ann=None, has_ann=False, e=s.e, mut=False))
+                for i, n in enumerate(s.names):
+                    stmts.append(Node("let", s.line, name=n, ann=None, has_ann=False, mut=False,
+                                      e=Node("field", s.line, e=Node("var", s.line, name=pn), name=str(i))))
+            b = Node("block", b.line, stmts=stmts, tail=b.tail)
+        if any(s.kind == "let" and s.has_ann and s.ann is not None and s.e.kind != "ascribe" for s in b.stmts):
+            # `let x: T = e;`: the variable has the annotated type (`None` alone does not determine it)
+            stmts = [Node("let", s.line, name=s.name, ann=s.ann, has_ann=True, mut=s.mut, e=Node("ascribe", s.line, e=s.e, ty=s.ann))
+                     if s.kind == "let" and s.has_ann and s.ann is not None and s.e.kind != "ascribe" else s for s in b.stmts]
+            b = Node("block", b.line, stmts=stmts, tail=b.tail)
+        return SchedGen.block(self, b, env, frame, k, bind)
+
+    # -- `for x in &vec { .. }`: structural recursion over the vector; the state is every `mut` variable in scope
+    def for_(self, s, env, frame, k):
+        w = self.w(s)
+        if frame.kind not in ("fn",):
+            fail(w, "a `for` loop inside a loop / closure / `match` arm is outside the translated subset")
+        if s.name in env:
+            fail(w, f"the loop variable `{s.name}` shadows another variable")
+        used = set()
+        seq_idents(s.body, used)
+        if self.has_self(s.body):
+            used.add("self")
+        fixed = [n for n in env if not env[n].mut and n in used]
+        state = [n for n in env if env[n].mut]
+        self.fuel = True
+        self.nloop += 1
+        fname = f"{self.lean_name}.loop{self.nloop}"
+        lf = SchedFrame("loop", state, frame.ret_ty)
+        env_b = {n: env[n] for n in fixed + state}
+        again = f"{fname}⟦EXT⟧ " + " ".join([lname(n) for n in fixed] + ["fuel", "it_rest"] + [lname(n) for n in state])
+
+        def body_k(term, ty, env2):
+            if ty is None or ty[0] != "unit":
+                fail(w, "the loop body has a value")
+            return [again]
+
+        def src(t, ty, en):
+            ty = seq_unref(ty)
+            if ty is None or ty[0] != "list":
+                fail(w, f"`for .. in` over {seq_show(ty)} is outside the translated subset (a `&Vec<T>` only)")
+            elem = ty[1]
+            body = self.block(s.body, env_b, lf, body_k, bind=(s.name, elem))
+            rty = seq_lty(seq_unref(frame.ret_ty), False)
+            sty = seq_tuple_ty([seq_unref(env[n].ty) for n in state])
+            ps = [f"({lname(n)} : {seq_lty(seq_unref(env[n].ty))})" for n in fixed] + ["(fuel : Nat)", f"(it_rest : List {seq_lty(elem, False)})"]
+            ps += [f"({lname(n)} : {seq_lty(seq_unref(env[n].ty))})" for n in state]
+
+            def emit():
+                ex = [f"({n} : {t_})" for n, t_ in sorted(self.externs.items())]
+                return [f"/-- the loop `for {s.name} in ..` of `{self.node.name}` ({w}): structural recursion over what is left of the vector (`it_rest`); "
+                        f"`.ret v s` = `return v` inside the body, `.next s` = the vector ran out; `s` = ({', '.join(state)}); `fuel` is passed on to the callees -/",
+                        f"def {fname} {EVAL_BINDER} {' '.join(ps + ex)} : R (Flow {rty} ({sty})) :=",
+                        "  match it_rest with", f"  | [] => .ok (.next {seq_tuple(state)})", f"  | {lname(s.name)} :: it_rest => ("] + ["    " + x for x in body] + ["    )"]
+            self.aux.append(emit)
+            self.effects += 1
+            tv, v = self.fresh(), self.fresh()
+            pat = seq_tuple(state)
+            first = f"{fname}⟦EXT⟧ " + " ".join([lname(n) for n in fixed] + ["fuel", atom(t)] + [lname(n) for n in state])
+            lines = [f"bnd ({first}) fun {tv} =>", f"match {tv} with", f"| .ret {v} {pat} => ("]
+            lines += ["  " + x for x in self.emit_return(frame, v, frame.ret_ty, s)] + ["  )", f"| .next {pat} =>"]
+            return lines + k("()", UNIT, en)
+        return self.cg(s.it, env, frame, src)
+
+    # -- `match`
+    def const_name(self, path, want, w):
+        if path not in SCHED_CONSTS:
+            fail(w, f"constant `{path}` in a pattern is outside the translated subset")
+        tk_, pname = SCHED_CONSTS[path]
+        if T(tk_) != want:
+            fail(w, f"pattern `{path}` against a value of type {seq_show(want)}")
+        need = path.split("::")[0]
+        if not any(n == need for _, n in self.uses):
+            fail(w, f"`{need}` is not imported by the file")
+        return self.ext(pname, seq_lty(T(tk_)))
+
+    def pat_test(self, p, terms, tys, w):
+        """the boolean test of a pattern made of enum constants, `_`, tuples and or-patterns"""
+        if p[0] == "or":
+            return "(" + " || ".join(self.pat_test(q, terms, tys, w) for q in p[1]) + ")"
+        if p[0] == "tuple":
+            if len(p[1]) != len(terms):
+                fail(w, "a tuple pattern of the wrong width")
+            return "(" + " && ".join(self.pat_test(q, [terms[i]], [tys[i]], w) for i, q in enumerate(p[1])) + ")"
+        if len(terms) != 1:
+            fail(w, "a pattern that is not a tuple against a tuple")
+        if p[0] == "wild":
+            return "true"
+        if p[0] == "const":
+            return f"decide ({atom(terms[0])} = {self.const_name(p[1], seq_unref(tys[0]), w)})"
+        fail(w, "a `match` mixing enum constants with `Some` / `None` / binders is outside the translated subset")
+
+    def matchpat(self, e, env, frame, k):
+        w = self.w(e)
+        scrut = e.scrut
+        while scrut.kind == "paren":
+            scrut = scrut.e
+        comps = scrut.items if scrut.kind == "tuple" else [scrut]
+        fr = SchedFrame("closed")
+        box = []
+
+        def arm_k(term, ty, en):
+            box.append(ty)
+            return [f".ok {atom(term)}"]
+
+        def result_ty():
+            rt = None
+            for t in box:
+                if rt is None or (rt[0] == "opt" and rt[1] is None):
+                    rt = t if t is not None else rt
+                elif t is not None and not seq_same(rt, t):
+                    fail(w, f"the arms of the `match` have different types: {seq_show(rt)}, {seq_show(t)}")
+            if rt is None:
+                fail(w, "the type of the `match` is not determined")
+            return rt
+
+        def got(a, en):
+            terms, tys = [t for t, _ in a], [seq_unref(ty) for _, ty in a]
+            kinds = set()
+            for p, _ in e.arms:
+                eval_pat_kinds(p, kinds)
+            if "const" in kinds:
+                lines = []
+                for n, (p, body) in enumerate(e.arms):
+                    test = self.pat_test(p, terms, tys, w)
+                    lines += [("if " if n == 0 else "else if ") + test + " then ("] + ["  " + x for x in self.block(body, en, fr, arm_k)] + ["  )"]
+                lines += ['else .error (.panic "rs2lean: no arm of the match applies (rustc checks that the arms are exhaustive)")']
+                return self.closed(lines, k, result_ty(), en)
+            if "or" in kinds:
+                fail(w, "or-patterns over `Some` / `None` / binders are outside the translated subset")
+            lines = ["match " + ", ".join(terms) + " with"]
+            for p, body in e.arms:
+                ps = p[1] if p[0] == "tuple" else [p]
+                if len(ps) != len(terms):
+                    fail(w, "a pattern of the wrong width")
+                env2, pats = dict(en), []
+                self.nblk += 1
+                for q, ty in zip(ps, tys):
+                    if q[0] == "wild":
+                        pats.append("_")
+                    elif q[0] == "none":
+                        if ty is None or ty[0] != "opt":
+                            fail(w, f"`None` against {seq_show(ty)}")
+                        pats.append("none")
+                    elif q[0] in ("some", "bind"):
+                        if q[1] in env2:
+                            fail(w, f"the pattern variable `{q[1]}` shadows another variable")
+                        if q[0] == "some" and (ty is None or ty[0] != "opt" or ty[1] is None):
+                            fail(w, f"`Some(..)` against {seq_show(ty)}")
+                        env2[q[1]] = SchedVar(ty[1] if q[0] == "some" else ty, False, -1)
+                        pats.append(f"some {lname(q[1])}" if q[0] == "some" else lname(q[1]))
+                    else:
+                        fail(w, "this pattern is outside the translated subset")
+                lines += ["| " + ", ".join(pats) + " => ("] + ["  " + x for x in self.block(body, env2, fr, arm_k)] + ["  )"]
+            return self.closed(lines, k, result_ty(), en)
+        return self.args(comps, env, frame, got)
+
+    # -- calls
+    def hole(self, name, ptys, rty, a, e, k, en):
+        lt = " → ".join([seq_lty(seq_unref(t), False) for t in ptys] + [f"R {seq_lty(rty, False)}"])
+        x = self.ext(name, lt)
+        v = self.fresh()
+        self.effects += 1
+        return [f"bnd ({x} " + " ".join(atom(t) for t, _ in a) + f") fun {v} =>"] + k(v, rty, en)
+
+    def call(self, e, env, frame, k):
+        w, path = self.w(e), e.path
+        p = "::".join(path)
+        if p == "Schedule::default":
+            if e.args or "Default" not in self.local_consts["Schedule derives"]:
+                fail(w, "`Schedule::default()` needs `#[derive(Default)]` on `struct Schedule`")
+            return k("({ inner := [] } : Schedule Time Kind Comments)", S_ST("Schedule"), env)
+        if len(path) == 1 and path[0] in EVAL_FN_HOLES:
+            mod, ptys, rty = EVAL_FN_HOLES[path[0]]
+            if not self.imported(mod, path[0]):
+                fail(w, f"`{path[0]}` is not imported from `{mod}`")
+
+            def got(a, en):
+                if len(a) != len(ptys) or not all(seq_same(ty, pt) for (_, ty), pt in zip(a, ptys)):
+                    fail(w, f"the arguments of `{path[0]}` are not ({', '.join(seq_show(t) for t in ptys)})")
+                return self.hole("ext_" + path[0], ptys, rty, a, e, k, en)
+            return self.args(e.args, env, frame, got)
+        if len(path) == 1 and (None, path[0]) in self.esigs:
+            return self.call_eval(e, path[0], self.esigs[(None, path[0])], e.args, env, frame, k)
+        return SchedGen.call(self, e, env, frame, k)
+
+    def call_eval(self, e, lean_callee, sig, args, env, frame, k):
+        w = self.w(e)
+
+        def got(a, en):
+            if len(a) != len(sig["params"]):
+                fail(w, f"`{lean_callee}` takes {len(sig['params'])} argument(s)")
+            for (t, tyx), wt in zip(a, sig["params"]):
+                if not seq_same(tyx, wt):
+                    fail(w, f"type mismatch in the call of `{lean_callee}`: {seq_show(wt)} vs {seq_show(tyx)}")
+            for n, t in sig["externs"].items():
+                self.ext(n, t)
+            if sig["fuel"]:
+                self.fuel = True
+            callee = f"{lean_callee}{self.ext_args(sig['externs'])}" + "".join(" " + atom(t) for t, _ in a) + (" fuel" if sig["fuel"] else "")
+            v = self.fresh()
+            self.effects += 1
+            return [f"bnd ({callee}) fun {v} =>"] + k(v, sig["ret"], en)
+        return self.args(args, env, frame, got)
+
+    def opt_adaptor(self, e, t, ty, en, frame, k):
+        """`opt.filter(|x| c)` / `opt.map(|x| v)` / `opt.map(Type::method)` with a closure that may call things: a closed
+        `match` (the closure runs on `Some` only; its parameter is in scope inside the arm only)"""
+        w, name, elem = self.w(e), e.name, ty[1]
+        if len(e.args) != 1:
+            fail(w, f"`.{name}()` takes 1 argument")
+        c = e.args[0]
+        fr = SchedFrame("closed")
+        box = []
+        if c.kind == "closure":
+            if len(c.params) != 1 or c.params[0][1]:
+                fail(w, "a closure with one plain parameter is expected")
+            pn = c.params[0][0]
+            if re.fullmatch(r"tmp\d+|ext_\w+|fuel|self|it_rest", pn):
+                fail(w, f"closure parameter `{pn}`")
+            env2 = dict(en)
+            env2[pn] = SchedVar(elem, False, -1)
+
+            def fin(term, ty2, en3):
+                box.append(seq_unref(ty2))
+                if name == "filter":
+                    if seq_unref(ty2) != BOOL:
+                        fail(w, "the closure of `.filter()` does not return a bool")
+                    return [f".ok (if {term} then some {lname(pn)} else none)"]
+                return [f".ok (some {atom(term)})"]
+            inner = self.block(c.body, env2, fr, fin)
+            rt = elem if name == "filter" else box[0]
+            pat = lname(pn)
+        elif c.kind == "variant" and name == "map" and (c.enum, c.name) in self.sigs:
+            sig = self.sigs[(c.enum, c.name)]
+            if not sig["has_self"] or sig["mut_self"] or sig["params"] or not seq_same(elem, S_ST(c.enum)):
+                fail(w, f"`{c.enum}::{c.name}` as a function needs a `&self` method without parameters of the element type")
+            for n, t_ in sig["externs"].items():
+                self.ext(n, t_)
+            if sig["fuel"]:
+                self.fuel = True
+            pat = self.fresh()
+            v2 = self.fresh()
+            inner = [f"bnd ({c.enum}.{c.name}{self.ext_args(sig['externs'])} {pat}" + (" fuel" if sig["fuel"] else "") + f") fun {v2} =>", f".ok (some {v2})"]
+            rt = sig["ret"]
+        else:
+            fail(w, f"the argument of `.{name}()` is outside the translated subset")
+        if rt is None or rt[0] == "unit":
+            fail(w, "the result type of the closure is not determined")
+        lines = [f"match {t} with", "| none => .ok none", f"| some {pat} => ("] + ["  " + x for x in inner] + ["  )"]
+        return self.closed(lines, k, T("opt", rt), en)
+
+    def method(self, e, env, frame, k):
+        w, name, recv = self.w(e), e.name, e.e
+        while recv.kind == "paren":
+            recv = recv.e
+        if name == "date" and recv.kind == "var" and recv.name in ("DATE_START", "DATE_END") and recv.name not in env:
+            if e.args or recv.name not in self.local_consts:
+                fail(w, f"`{recv.name}.date()`: the constant is not defined in this file")
+            return k(f"Chrono.{recv.name}", E_DATE, env)
+
+        def on(t, ty, en):
+            ty0 = seq_unref(ty)
+            k0 = ty0[0] if ty0 else None
+            if (k0, name) in EVAL_METHOD_HOLES:
+                pname, imp, ptys, rty = EVAL_METHOD_HOLES[(k0, name)]
+                if not self.imported(*imp):
+                    fail(w, f"`{imp[1]}` is not imported from `{imp[0]}`")
+
+                def got(a, en2):
+                    if len(a) != len(ptys) or not all(seq_same(ty_, pt) for (_, ty_), pt in zip(a, ptys)):
+                        fail(w, f"the arguments of `.{name}()` are not ({', '.join(seq_show(x) for x in ptys)})")
+                    return self.hole(pname, [ty0] + ptys, rty, [(t, ty0)] + a, e, k, en2)
+                return self.args(e.args, en, frame, got)
+            if k0 == "adate" and name in ("pred_opt", "succ_opt") and not e.args:
+                return k(f"Chrono.{name} {atom(t)}", T("opt", E_DATE), en)
+            if k0 == "range" and ty0[1] == E_DATE and name == "contains" and len(e.args) == 1:
+                return self.cg(e.args[0], en, frame, lambda a, ta, en2: k(f"Range.contains {atom(t)} {atom(a)}", BOOL, en2)
+                               if seq_unref(ta) == E_DATE else fail(w, f"`.contains(..)` of a {seq_show(ta)}"))
+            if k0 == "opt" and ty0[1] is not None:
+                if name in ("filter", "map"):
+                    return self.opt_adaptor(e, t, ty0, en, frame, k)
+                if name == "as_ref" and not e.args:
+                    return k(t, ty0, en)
+                if name == "or" and len(e.args) == 1:
+                    return self.cg(e.args[0], en, frame, lambda a, ta, en2: k(f"Option.or {atom(t)} {atom(a)}", ty0, en2)
+                                   if seq_same(ta, ty0) else fail(w, f"`.or(..)`: {seq_show(ty0)} vs {seq_show(ta)}"))
+                if name == "unwrap_or_else" and len(e.args) == 1:
+                    c = e.args[0]
+                    if c.kind == "variant" and (c.enum, c.name) == ("Schedule", "new") and seq_same(ty0[1], S_ST("Schedule")) and self.local_consts.get("Schedule::new"):
+                        return k(f"Option.getD {atom(t)} ({{ inner := [] }} : Schedule Time Kind Comments)", ty0[1], en)
+                    fail(w, "the argument of `.unwrap_or_else()` is outside the translated subset (only `Schedule::new`, = `Self::default()`)")
+            return None
+        marker = []
+
+        def on_any(t, ty, en):
+            r = on(t, ty, en)
+            if r is None:
+                marker.append(1)
+                return []
+            return r
+        before = (self.n, self.effects, dict(self.externs), len(self.aux), self.fuel, self.nloop, self.nblk)
+        r = self.cg(recv, env, frame, on_any)
+        if marker:
+            self.n, self.effects, self.externs, self.fuel, self.nloop, self.nblk = before[0], before[1], before[2], before[4], before[5], before[6]
+            del self.aux[before[3]:]
+            return SchedGen.method(self, e, env, frame, k)
+        return r
+
+
+def eval_struct(tk, rel, name, parser):
+    """the named fields of `struct NAME [<..>] { .. }`"""
+    texts = [x.text for x in tk]
+    hits = [i for i in range(len(texts) - 2) if texts[i] == "struct" and texts[i + 1] == name]
+    if len(hits) != 1:
+        fail(rel, f"`struct {name}` not found")
+    j = hits[0] + 2
+    if texts[j] == "<":
+        depth = 0
+        while True:
+            if texts[j] == "<":
+                depth += 1
+            elif texts[j] == ">":
+                depth -= 1
+                if depth == 0:
+                    break
+            j += 1
+        j += 1
+    if texts[j] != "{":
+        fail(f"{rel}:{tk[j].line}", f"`struct {name} {{ .. }}` with named fields is expected")
+    parser.i = j + 1
+    fields = []
+    while not parser.at("}"):
+        if parser.at("pub"):
+            parser.i += 1
+            if parser.at("("):
+                parser.i = matching(parser.t, parser.i) + 1
+        fn = parser.ident()
+        parser.eat(":")
+        ft = parser.type_()
+        if ft is None:
+            fail(parser.where(), "field of type `_`")
+        fields.append((fn, ft))
+        if not parser.at("}"):
+            parser.eat(",")
+    return fields, tk[hits[0]].line
+
+
+def eval_drop_cfg_test(raw):
+    """the tokens without attributes; a statement under `#[cfg(test)]` inside a function body is dropped with its attribute
+    (the harness and the library are not built with `cfg(test)`)"""
+    out, i = [], 0
+    pat = ["#", "[", "cfg", "(", "test", ")", "]"]
+    while i < len(raw):
+        if [x.text for x in raw[i : i + 7]] == pat and raw[i + 7].text == "crate":
+            j = i + 7
+            while raw[j].text != ";":
+                if raw[j].text in ("{", "}") or raw[j].kind == "eof":
+                    fail(f"{raw[i].line}", "`#[cfg(test)]` in front of something that is not a plain call statement")
+                j += 1
+            i = j + 1
+            continue
+        out.append(raw[i])
+        i += 1
+    return strip_attrs(out)
+
+
+def eval_section(toks, raw):
+    """the Lean text (lines) of the EVAL_TARGETS"""
+    if not SCHED_EXPORT:
+        fail(F_SCHED, "the schedule section has to be generated first")
+    sigs, fields = SCHED_EXPORT["sigs"], dict(SCHED_EXPORT["fields"])
+    toks(F_OH)
+    tk = eval_drop_cfg_test(raw(F_OH))
+    uses = file_uses(tk)
+    for imp in sorted(EVAL_IMPORTS):
+        if imp not in uses:
+            fail(F_OH, f"`use {imp[0]}::{imp[1]};` not found: the name `{imp[1]}` is read as that item")
+    for name, (_, rel, need) in EVAL_ENUMS.items():
+        toks(rel)
+        got = derives_of(raw(rel), name)
+        if not need <= got:
+            fail(rel, f"`{name}` is compared with `==` / matched by constants: it has to derive {sorted(need)}, found {sorted(got)}")
+    texts = [x.text for x in tk]
+    local_consts = {}
+    for cn in ("DATE_START", "DATE_END"):
+        if any(texts[i : i + 5] == ["pub", "const", cn, ":", "NaiveDateTime"] for i in range(len(texts) - 5)):
+            local_consts[cn] = True
+    toks(F_SCHED)
+    local_consts["Schedule derives"] = derives_of(raw(F_SCHED), "Schedule")
+    st = [x.text for x in toks(F_SCHED)]
+    want = ["fn", "new", "(", ")", "->", "Self", "{", "Self", "::", "default", "(", ")", "}"]
+    local_consts["Schedule::new"] = any(st[i : i + len(want)] == want for i in range(len(st))) and "Default" in local_consts["Schedule derives"]
+    structs = set(SCHED_STRUCTS) | set(SCHED_ABSTRACT) | {"UniqueSortedVec"} | {n for _, n in EVAL_STRUCTS}
+    L = ["/-! ### [eval extension] opening-hours/src/opening_hours.rs (the evaluator core) -/", "", "namespace Eval", "open Sched", ""]
+    for rel, name in EVAL_STRUCTS:
+        stk = toks(rel)
+        p = EvalParser(stk, rel, structs, uses=std_uses(stk))
+        fields[name], line = eval_struct(stk, rel, name, p)
+        L += [f"/-- `struct {name}` ({rel}:{line}) -/", f"structure {name} ({EVAL_TPARAMS} : Type) where"]
+        L += [f"  {lname(fn)} : {seq_lty(ft)}" for fn, ft in fields[name]] + [""]
+    esigs = {}
+    for rel, header, rname in EVAL_TARGETS:
+        impl_ty = header[6] if header else None
+        where = find_impl_fns(tk, rel, impl_ty, None, [rname], header=header)
+        p = EvalParser(tk, rel, structs, uses=std_uses(tk))
+        p.self_t = E_ST(impl_ty) if impl_ty else None
+        p.item_t = None
+        p.i = where[rname]
+        node = p.seq_fn()
+        g = EvalGen(rel, impl_ty, node, p.self_t, fields, sigs, uses, {}, esigs, local_consts)
+        L += g.gen() + [""]
+        esigs[(impl_ty, rname)] = dict(has_self=node.has_self, mut_self=node.mut_self, params=[pt for _, pt, _ in node.params], ret=node.ret,
+                                       externs=dict(g.externs), fuel=g.fuel)
+    L += ["end Eval", ""]
+    return L
 
 
 def main(argv):
